@@ -213,20 +213,22 @@ def run(tier: str) -> int:
         from . import synth, c13models as LM
         from metador_core.plugins import schemas as _schemas
         synth.register_package("vl-pkg", "1.0.0", LM.CLASSES)
-        for pname, should_load in LM.EXPECT.items():
-            try:
-                _schemas[pname]
-                loaded = True
-            except TypeError:
-                loaded = False
-            except Exception as ex:
-                loaded = False
-                if should_load:
-                    rep.violation(f"loading the valid schema plugin {pname} raised {type(ex).__name__}: {str(ex)[:120]}", {"plugin": pname})
-                    continue
-            if loaded != should_load:
-                rep.violation(f"schema plugin {pname}: {'loaded although its class chain contains an undeclared incompatible override' if loaded else 'refused although valid'}",
-                              {"plugin": pname})
+        for attempt in (1, 2, 3):       # a refused plugin stays refused however often it is asked for
+            for pname, should_load in LM.EXPECT.items():
+                try:
+                    _schemas[pname]
+                    loaded = True
+                except TypeError:
+                    loaded = False
+                except Exception as ex:
+                    loaded = False
+                    if should_load:
+                        rep.violation(f"loading the valid schema plugin {pname} raised {type(ex).__name__}: {str(ex)[:120]}", {"plugin": pname})
+                        continue
+                if loaded != should_load:
+                    rep.violation(f"schema plugin {pname} (attempt {attempt}): "
+                                  f"{'loaded although its class chain contains an undeclared incompatible override' if loaded else 'refused although valid'}",
+                                  {"plugin": pname, "attempt": attempt})
         rep.parts["plugin_loading"] = {"plugins": len(LM.EXPECT), "must_be_refused": sum(1 for v in LM.EXPECT.values() if not v)}
         # hints wrapped in Annotated[...] (as metador's own schemas write them): whatever check_types accepts without
         # declaration must be semantically safe for the witnesses
@@ -263,6 +265,32 @@ def run(tier: str) -> int:
                                   f"is rejected by the parent: {type(ex).__name__}", {"parent": str(ph), "child": str(ch), "witness": repr(wv)})
                     break
         rep.parts["annotated_wrappers"] = {"pairs": nwr}
+        # nested schemas are checked wherever they sit in a field type: a holder whose field refers (behind any
+        # wrapper) to a schema class with an undeclared incompatible override must be refused
+        from typing import Tuple as _Tuple
+        _n[0] += 1
+        Item = type(MetadataSchema)(f"Item{_n[0]}", (MetadataSchema,), {"__annotations__": {"x": T.Int}})
+        ItemBad = type(MetadataSchema)(f"ItemBad{_n[0]}", (Item,), {"__annotations__": {"x": T.Str}})
+        ItemOk = type(MetadataSchema)(f"ItemOk{_n[0]}", (Item,), {"__annotations__": {"y": Optional[T.Int]}})
+        shapes = {"plain": lambda c: c, "optional": lambda c: Optional[c], "list": lambda c: List[c], "dict": lambda c: Dict[str, c],
+                  "tuple": lambda c: _Tuple[T.Int, c], "list_of_dict": lambda c: List[Dict[str, c]],
+                  "list_of_annotated": lambda c: List[Annotated[c, Field(description="d")]],
+                  "optional_union_dict": lambda c: Optional[Union[T.Int, Dict[str, c]]], "annotated": lambda c: Annotated[c, F1]}
+        nnest = 0
+        for sname, mk in shapes.items():
+            for inner, must_refuse in ((ItemBad, True), (ItemOk, False)):
+                nnest += 1
+                _n[0] += 1
+                try:
+                    holder = type(MetadataSchema)(f"Holder{_n[0]}", (MetadataSchema,), {"__annotations__": {"g": mk(inner)}})
+                    check_types(holder)
+                    refused = False
+                except TypeError:
+                    refused = True
+                if refused != must_refuse:
+                    rep.violation(f"a schema holding {'an invalid' if must_refuse else 'a valid'} nested schema in a field of shape "
+                                  f"'{sname}' was {'refused' if refused else 'accepted'}", {"shape": sname})
+        rep.parts["nested_schema_positions"] = {"cases": nnest}
         # extra policy must not be loosened by a child
         from pydantic import Extra
 
